@@ -446,6 +446,12 @@ class DirectoryRecord:
                     raise pycdlibexception.PyCdlibInvalidISO('Dot child of the parent did not have a dot entry; ISO is corrupt')
                 self.parent.children[0].rock_ridge.add_to_file_links()
 
+                # A relocated parent is described a third time, by the
+                # child link placeholder at its original location.
+                placeholder = self.parent.rock_ridge.moved_to_cl_dr
+                if placeholder is not None and placeholder.rock_ridge is not None and placeholder.rock_ridge.has_file_links():
+                    placeholder.rock_ridge.add_to_file_links()
+
     def _new(self, vd, name, parent, seqnum, isdir, length, xa, date_seconds):
         # type: (headervd.PrimaryOrSupplementaryVD, bytes, Optional[DirectoryRecord], int, bool, int, bool, float) -> None
         """
@@ -1011,6 +1017,12 @@ class DirectoryRecord:
                     self.rock_ridge.remove_from_file_links()
 
                     self.children[0].rock_ridge.remove_from_file_links()
+
+                    # A relocated directory is described a third time, by
+                    # the child link placeholder at its original location.
+                    placeholder = self.rock_ridge.moved_to_cl_dr
+                    if placeholder is not None and placeholder.rock_ridge is not None and placeholder.rock_ridge.has_file_links():
+                        placeholder.rock_ridge.remove_from_file_links()
 
         del self.children[index]
 
